@@ -281,7 +281,6 @@ func execCacheCase(c Case) {
 	}
 	ghostOK := true
 	ghostWhy := ""
-	uncreated := map[string]bool{}    // locations whose created marker was cleared away
 	hookRejected := map[string]bool{} // locations where the cron add hook rejected an add (D33: linear state leaves a record)
 	for _, oi := range list(c["ops"]) {
 		o := obj(oi)
@@ -305,10 +304,7 @@ func execCacheCase(c Case) {
 		for k := 1; k < len(results); k++ {
 			if canonRes(results[k]) != base {
 				key := "ttl_mismatch"
-				if check && len(uncreated) > 0 {
-					// (the uncreated location may be this one or an ancestor of it)
-					key = "ttl_mismatch_d42"
-				} else if linear && len(hookRejected) > 0 {
+				if linear && len(hookRejected) > 0 {
 					key = "ttl_mismatch_d33"
 				}
 				res[key] = fmt.Sprintf("ttl[%d]=%v: %s %v", k, ttls[k], canonRes(results[k]), results[k]["msg"])
@@ -318,14 +314,21 @@ func execCacheCase(c Case) {
 			(strings.Contains(m, "isn't a map") || strings.Contains(m, "isn't a string") || strings.Contains(m, "isn't a rule")) {
 			hookRejected[str(o["loc"])] = true
 		}
-		if boolean(res["ok"]) && (str(o["op"]) == "clear" || (str(o["op"]) == "remfact" && str(o["id"]) == "!.createdAt")) {
-			uncreated[str(o["loc"])] = true
-		}
 		o["res"] = res
 		o["persistent"] = true
-		o["cron"] = nil
 		delete(o, "cron")
 		done = append(done, o)
+		if check && boolean(res["ok"]) && str(o["op"]) == "clear" {
+			// ClearLocation marks the location created again: hand the new marker to the model
+			if got, err := systems[0].GetFact(ctxs[0], str(o["loc"]), "!.createdAt"); err == nil {
+				var v interface{}
+				json.Unmarshal([]byte(got), &v)
+				now := time.Now().Unix()
+				done = append(done, map[string]interface{}{"loc": o["loc"], "op": "addfact", "fact": v, "synthetic": true,
+					"res": map[string]interface{}{"ok": true, "id": "!.createdAt"}, "fresh": "!.createdAt", "t": now, "t2": now,
+					"persistent": true, "cron": []interface{}{}})
+			}
+		}
 		// ghost probe
 		if check && len(done)%7 == 0 {
 			for k, s := range systems {
